@@ -60,6 +60,11 @@ def history_spec(draw, d, min_rows, max_rows=12, losses="finite"):
     elif losses == "extreme":
         el = st.one_of(st.sampled_from([0.0, 1.0, 1.0, 3.4028235e38, 1e300, -1e300, 5e38, -3.5e38]),
                        st.floats(-100, 100, allow_nan=False))
+    elif losses == "signed_inf":
+        # a signed user loss (e.g. a log-likelihood) at both ends of the float range: -inf and -max are different values
+        fmax = 1.7976931348623157e308
+        el = st.one_of(st.sampled_from([0.0, 1.0, float("inf"), float("-inf"), float("-inf"), fmax, -fmax, -fmax, -1e300]),
+                       st.floats(-100, 100, allow_nan=False))
     else:
         el = st.one_of(st.sampled_from([0.0, 1.0, float("inf"), 1e300]), st.floats(-100, 100, allow_nan=False))
     ls = draw(st.lists(el, min_size=n, max_size=n))
